@@ -94,6 +94,7 @@ Definition op_table : list (string * rd string) :=
     ("s_ylen", md <- rMode ;; y <- rZ ;; ret (show_Z (ylen md y)));
     ("s_mlen", md <- rMode ;; y <- rZ ;; m <- rZ ;; ret (show_Z (mlen md y m)));
     ("s_weeks", md <- rMode ;; y <- rZ ;; ret (show_Z (weeks_in md y)));
+    ("s_wys", md <- rMode ;; y <- rZ ;; ret (show_Z (wys md y)));
     ("s_dby", md <- rMode ;; y <- rZ ;; ret (show_Z (dby md y)));
     ("s_instant", md <- rMode ;; p <- rTp ;; ret (show_Q (instant md p)));
     ("s_valid", md <- rMode ;; p <- rTp ;; ret (sh_bool (valid_tp md p)));
@@ -109,9 +110,9 @@ Definition op_table : list (string * rd string) :=
                              unwords [show_Z y; show_Z m; show_Z d; show_Q h; show_Q mi; show_Q s])
                    (tp_hash_key md p)));
     ("sub", md <- rMode ;; a <- rTp ;; b <- rTp ;; ret (sh_opt sh_dur (tp_sub md a b)));
-    ("tocal", md <- rMode ;; d <- rDate ;; ret (sh_opt sh_date (to_calendar_date md d)));
-    ("toord", md <- rMode ;; d <- rDate ;; ret (sh_opt sh_date (to_ordinal_date md d)));
-    ("toweek", md <- rMode ;; d <- rDate ;; ret (sh_opt sh_date (to_week_date md d)))
+    ("tocal", md <- rMode ;; d <- rDate ;; ret (sh_opt sh_date (if date_in_bounds md d then to_calendar_date md d else None)));
+    ("toord", md <- rMode ;; d <- rDate ;; ret (sh_opt sh_date (if date_in_bounds md d then to_ordinal_date md d else None)));
+    ("toweek", md <- rMode ;; d <- rDate ;; ret (sh_opt sh_date (if date_in_bounds md d then to_week_date md d else None)))
   ].
 
 Fixpoint lookup {A} (k : string) (l : list (string * A)) : option A :=
